@@ -183,13 +183,21 @@ func (c *Channel) Open() (reterr error) {
 func (c *Channel) Close() error {
 	c.l.Info("channel closing...")
 
+	verifYield("C_errs")
+
 	close(c.Errs)
 
 	ch := make(chan struct{})
 
+	verifYield("C_flag")
+
 	if !c.readLoopExited {
+		verifYield("C_help")
+
 		go func() {
 			defer close(ch)
+
+			verifYield("H_send")
 
 			c.done <- struct{}{}
 		}()
@@ -197,9 +205,13 @@ func (c *Channel) Close() error {
 		close(ch)
 	}
 
+	verifYield("C_wait")
+
 	select {
 	case <-ch:
 		c.l.Debug("closing underlying transport...")
+
+		verifYield("C_tclose")
 
 		return c.t.Close(false)
 	case <-time.After(c.ReadDelay * (c.ReadDelay / readDelayDivisor)): //nolint:durationcheck
@@ -207,6 +219,8 @@ func (c *Channel) Close() error {
 		// transport to finish closing connection, so give it c.ReadDelay*(c.ReadDelay/1000) to
 		// "nicely" exit -- with defaults this ends up being 62.5ms.
 		c.l.Debug("force closing underlying transport...")
+
+		verifYield("C_tforce")
 
 		return c.t.Close(true)
 	}
